@@ -1196,6 +1196,11 @@ class UTPM(Ring, RawAlgorithmsMixIn):
     @classmethod
     def pb_sum(cls, ybar, x, y, axis, dtype, out2, out = None):
 
+        if isinstance(out2, cls) and not isinstance(y, cls):
+            # called by the tracer, which passes the arguments in the order
+            # of sum(x, axis, dtype, out) followed by the result y
+            y, axis, dtype, out2 = out2, y, axis, dtype
+
         if out is None:
             D,P = x.data.shape[:2]
             xbar = x.zeros_like()
